@@ -59,6 +59,10 @@ def metamorphic(ctx):
         n0 = cnt(salt, bs, seed)
         if cnt(salt, bs, seed) != n0:
             ctx.oracle_fail("same salt, bucket and entity set gave different noise (not sticky)", {"salt": salt, "bucket_seed": bs, "seed": seed}, "sticky")
+        # the layers scale with layer_noise_sd: with the noise switched off the same bucket over the same entities gets exactly its count
+        c_off = A.count_single_contributions(AnonymizationContext(U64(bs), AnonymizationParams(salt=salt, layer_noise_sd=0.0)), c0, U64(seed))
+        if c_off != c0:
+            ctx.oracle_fail(f"layer_noise_sd = 0 (after the same bucket was counted with sd 3): released {c_off} for a count of {c0}", {"salt": salt, "bucket_seed": bs, "seed": seed}, "sd-scale")
         same["salt"] += cnt(bytes(reversed(salt)), bs, seed) == n0
         same["bucket"] += cnt(salt, bs ^ 0x1234567, seed) == n0
         same["entity"] += cnt(salt, bs, seed ^ 0x7654321) == n0
